@@ -22,8 +22,8 @@ PROP_FILE = "C17"
 CASE_DEPS = ["theories/CorrFrontends.vo", "Generated/GenFrontends.vo"]
 RULE = ("sessions = (framer, single/multi-unit context, ignore_missing_slaves, 1-3 connections each with 1-3 "
         "requests drawn from FC1-6/15/16/22/23/43-14 incl. illegal addresses and missing units, unique "
-        "transaction ids); chunking: whole frames, two frames per chunk, or a frame split after its 8th byte "
-        "(MBAP framing only), at most 6 chunks; EVERY interleaving of the chunks (all of them up to 30, else 30 "
+        "transaction ids); chunking: whole frames, two frames per chunk (socket/RTU/ASCII, served and foreign "
+        "units mixed), or a frame split at any offset (MBAP framing), at most 6 chunks; EVERY interleaving of the chunks (all of them up to 30, else 30 "
         "sampled); one case per (session, interleaving): the three stream front-ends (resp. the two live datagram "
         "front-ends), plus the serial reference; distinct = distinct (traffic, interleaving)")
 TRUSTED = [
@@ -82,7 +82,7 @@ def make_session(r, framer, dgram):
         frames, foreign = [], []
         for _ in range(nreq):
             hosted = spec["units"] if multi else [1, 7]
-            uid = r.choice(hosted + hosted + ([9] if multi else []))      # 9: a unit nobody hosts
+            uid = r.choice(hosted + hosted + ([9, 9] if multi else []))   # 9: a unit nobody hosts
             kind = r.choice(KINDS)
             pdu = valid_pdu(r, kind, spec["size"]) if kind != "dev0" else L.pdu_devinfo(0, 0)
             if r.random() < 0.15:       # illegal data address -> exception response 02
@@ -96,14 +96,16 @@ def make_session(r, framer, dgram):
         while i < len(frames):
             f = frames[i]
             k2 = r.random()
-            # (a frame for a unit nobody hosts makes the framers drop the rest of the read: finding #19,
-            #  owned by C09/C10 — such a frame is never put in front of another one in the same chunk)
-            if framer == "socket" and not dgram and k2 < 0.25 and i + 1 < len(frames) and not foreign[i]:
+            # pipelined reads (socket, RTU, ASCII): since /repo 4358708 the RTU framer handles every frame of a
+            # read and since 9138241 a frame for a unit nobody hosts is skipped without dropping the frames
+            # behind it, so served and foreign units are mixed freely; the binary framer still resets on a
+            # foreign unit (finding #19, C09/C10) and stays one frame per read
+            if framer in ("socket", "rtu", "ascii") and not dgram and k2 < 0.3 and i + 1 < len(frames):
                 chunks.append((f + frames[i + 1], [f, frames[i + 1]]))
                 i += 2
                 continue
-            if framer == "socket" and not dgram and k2 < 0.5 and len(f) > 9 and budget - len(chunks) > 1:
-                cut = r.randrange(8, len(f))
+            if framer == "socket" and not dgram and k2 < 0.55 and budget - len(chunks) > 1:
+                cut = r.randrange(1, len(f))      # any offset: since /repo 8e57b39 a short chunk just waits
                 chunks.append((f[:cut], []))
                 chunks.append((f[cut:], [f]))
             else:
@@ -296,17 +298,37 @@ def replay_finding(f):
         finally:
             run.close()
     if f["id"] == "F-C17-udp-shared-framer":
-        outs = []
-        for fe in ("SyncUdp", "AioUdp"):
-            run = L.Run(fe, "socket", SPEC1, {})
-            try:
-                run.open(0)
-                run.feed(0, bytes.fromhex(w["datagram1"]))
-                run.open(1)
-                outs.append([x.hex() for x in run.feed(1, bytes.fromhex(w["datagram2"])).out])
-            finally:
-                run.close()
-        return outs[0] != outs[1]
+        differ = []
+        for first in (w["datagram1"], w.get("short_datagram1", w["datagram1"])):
+            outs = []
+            for fe in ("SyncUdp", "AioUdp"):
+                run = L.Run(fe, "socket", SPEC1, {})
+                try:
+                    run.open(0)
+                    run.feed(0, bytes.fromhex(first))
+                    run.open(1)
+                    outs.append([x.hex() for x in run.feed(1, bytes.fromhex(w["datagram2"])).out])
+                finally:
+                    run.close()
+            differ.append(outs[0] != outs[1])
+        return all(differ)
+    if f["id"] == "F-C17-foreign-unit-drops-read":
+        still = False
+        for framer, frames in w["frames"].items():
+            fr = [bytes.fromhex(x) for x in frames]
+            for fe in STREAM:
+                res = []
+                for chunks in ([b"".join(fr)], fr):
+                    run = L.Run(fe, framer, w["ctx"], {})
+                    try:
+                        run.open(0)
+                        for ch in chunks:
+                            run.feed(0, ch)
+                        res.append([x.hex() for x in run.conns[0].rec.sent])
+                    finally:
+                        run.close()
+                still = still or res[0] != res[1] or not res[0]
+        return still
     if f["id"] == "F-C17-bus-message-counter":
         outs = []
         for fe in STREAM:
